@@ -126,3 +126,17 @@ func RunPipe(srv *vgirpc.Server, input []byte) (res PipeResult) {
 }
 
 var _ io.Reader = (*trackReader)(nil)
+
+// TickWithTokens builds an HTTP producer-continuation body: one empty-schema
+// zero-row batch carrying the cursor and (when non-empty) the call token.
+func TickWithTokens(cursor, callTok string, extra ...[2]string) []byte {
+	keys, vals := []string{KStreamState}, []string{cursor}
+	if callTok != "" {
+		keys, vals = append(keys, KCallState), append(vals, callTok)
+	}
+	for _, kv := range extra {
+		keys, vals = append(keys, kv[0]), append(vals, kv[1])
+	}
+	b := WithMeta(array.NewRecordBatch(emptySchema, nil, 0), keys, vals)
+	return EncodeStream(emptySchema, b)
+}
